@@ -63,6 +63,14 @@ fn gen_sequences(tier: &str, seed: u64, out: &mut dyn FnMut(Value)) {
 
 pub fn gen(tier: &str, seed: u64, out: &mut dyn FnMut(Value)) {
     gen_sequences(tier, seed, out);
+    // match-on sections on rules that are also dependencies of other rules: a rule is reported only for the event
+    // types its *own* section admits, however it came to be evaluated
+    {
+        use crate::props::engine::{gen_random, Cfg};
+        let mut rng = Rng::new(seed ^ 0xdeb5);
+        let cfg = Cfg { max_rules: 5, dep_prob: (2, 3), err_ops: false, n_events: 8, ..Cfg::default() };
+        gen_random(&mut rng, &cfg, if tier == "thorough" { 20000 } else { 1500 }, "match-on on rules used as dependencies", (0, 1), out);
+    }
     let srcs = ["a", "b", "c"];
     let ev_ids: Vec<i64> = (-2..=3).collect();
     let mut emit = |mo: Value, out: &mut dyn FnMut(Value)| {
